@@ -4327,11 +4327,14 @@ class NetCDFRead(IORead):
                 continue
 
             if coord_ncvar not in g["formula_terms"]:
+                # Note: A scalar coordinate variable has no vertical
+                # dimension
+                z_ncdims = g["variable_dimensions"][coord_ncvar][:1]
                 self._check_formula_terms(
                     field_ncvar,
                     coord_ncvar,
                     formula_terms,
-                    z_ncdim=g["variable_dimensions"][coord_ncvar][0],
+                    z_ncdim=z_ncdims[0] if z_ncdims else None,
                 )
 
             ok = True
